@@ -106,13 +106,24 @@ def request(lx, **kw):
     if d is not None:
         global WIRE_COUNT
         WIRE_COUNT += 1
-        lx.request(d)
-        r = _parse_cip(d.input)
-        return r
+        try:
+            lx.request(d)
+        except Exception as e:
+            return cpppo.dotdict(status=-2, raised='%s: %s' % (type(e).__name__, str(e)[:120]))
+        try:
+            return _parse_cip(d.input)
+        except Exception as e:
+            # the reply bytes the server produced are not a parsable reply: an observation for the oracle (no status any model expects)
+            return cpppo.dotdict(status=-1, unparsable='%s: %s' % (type(e).__name__, str(e)[:120]), raw=bytes(d.input))
     d = cpppo.dotdict()
     for k, v in kw.items():
         d[k] = v
-    lx.request(d)
+    try:
+        lx.request(d)
+    except Exception as e:
+        # request() let an exception escape (it promises a reply with an error status instead): an observation for the oracle
+        d['status'] = -2
+        d['raised'] = '%s: %s' % (type(e).__name__, str(e)[:120])
     return d
 
 
